@@ -206,14 +206,23 @@ def extra_cases(rng, thorough):
     import utype
     from utype import Schema, Options
 
+    import decimal
+
     class E(Schema):
         __options__ = Options(addition=int)
         a: int = 0
-    for x in [{"a": 1, "p": "2", "q": "x"}, {"p": "x", "q": None}, {"p": "1", "q": 2.0}, {"a": "3", "p": [1, 2]}, {"p": "7"}]:
+
+    class ED(Schema):
+        __options__ = Options(addition=decimal.Decimal)
+        a: int = 0
+    # (values whose conversion fails with something else than a TypeError / ValueError: OverflowError, decimal.InvalidOperation)
+    for E, AT, x in [(E, int, x) for x in [{"a": 1, "p": "2", "q": "x"}, {"p": "x", "q": None}, {"p": "1", "q": 2.0}, {"a": "3", "p": [1, 2]}, {"p": "7"},
+                                            {"a": 1, "p": float("inf"), "q": "2"}, {"p": float("-inf")}]] + [
+                    (ED, decimal.Decimal, x) for x in [{"a": 1, "p": "1.5", "q": "n/a"}, {"p": "1,5", "q": 2}, {"p": "3"}]]:
         for pv in POL:
-            ents = [dict(entry(k, v, None, int), pol=pv) for k, v in x.items()]
-            filtered = {k: v for k, v in x.items() if not conv(int, v)[0]}
-            r = result_of(lambda: E.__from__(x, options=Options(addition=int, invalid_values=pv)), "map")
+            ents = [dict(entry(k, v, None, AT), pol=pv) for k, v in x.items()]
+            filtered = {k: v for k, v in x.items() if not conv(AT, v)[0]}
+            r = result_of(lambda: E.__from__(x, options=Options(addition=AT, invalid_values=pv)), "map")
             r["filtered"] = result_of(lambda: E(**filtered), "map")
             c = {"kind": "extra", "shape": "fields", "indexable": True, "pk": "throw", "pv": pv, "entries": ents,
                  "anyexclude": pv == "exclude", "pols": ["throw", "throw", pv]}
